@@ -466,9 +466,10 @@ def wrap_elem(uq, i):
 # ----------------------------------------------------------------------------- extract_wfs_cbin: chunks tile the recording, each table row goes to one chunk, job arguments
 def replay_chunks(vals, oid):
     bad = []
-    for ns, chunk, jobs in ((6100, 500, 1), (6100, 6100, 1), (6001, 3000, 3), (5000, 7000, 2)):
-        b, _ = native_e2e(np.random.default_rng(ns + chunk), ns, chunk, jobs, sizes=[5, 16, 30], max_wf=16, seed=2, tail_spikes=True)
-        bad += [x for x in b if not (x[0] == "count" and x[-1] == "first_valid_index_selected")]
+    for ns, chunk, jobs, kw in ((6100, 500, 1, {}), (6100, 6100, 1, {}), (6001, 3000, 3, {}), (5000, 7000, 2, {}), (6100, 3000, 1, dict(trough=60, length=128)), (6100, 1000, 2, dict(trough=20, length=90)),
+                                (9000, 3000, 1, dict(quiet_until=3000))):
+        b, _ = native_e2e(np.random.default_rng(ns + chunk), ns, chunk, jobs, sizes=[5, 16, 30], max_wf=16, seed=2, tail_spikes=True, **kw)
+        bad += [x + (("options", kw),) for x in b if not (x[0] == "count" and x[-1] == "first_valid_index_selected")]
     return {"failed": bool(bad), "examples": [repr(x)[:200] for x in bad[:3]]}
 
 
@@ -499,9 +500,19 @@ def h_chunks(H):
         it.session.note_function(FN)
         env = I.Env(None, FN.__globals__, qualname="extract_wfs_cbin", filename=filename)
         env.funcnode = node
-        tokens = {nm: "ARG:" + nm for nm in ("bin_file", "wfs", "h", "channel_labels", "channel_neighbors", "reader_kwargs", "preprocess_steps")}
+        tokens = {nm: "ARG:" + nm for nm in ("bin_file", "wfs", "h", "channel_labels", "channel_neighbors", "reader_kwargs", "preprocess_steps", "spike_samples", "spike_clusters", "spike_channels", "max_wf", "seed")}
         env.vars.update(tokens)
-        env.vars.update(dict(sr=sr, chunksize_samples=SV(chunk), wf_flat=table, trough_offset=SV(trough), spike_length_samples=SV(L)))
+        requested = []
+
+        def table_summary(it_, a, k_):
+            # _make_wfs_table under its own contract (harness make_wfs_table): what it is asked for is recorded, the table of its post-condition returned
+            import inspect
+            ba = inspect.signature(WE._make_wfs_table).bind(*a, **k_)
+            ba.apply_defaults()
+            requested.append(dict(ba.arguments))
+            return table, "RESULT:unit_ids"
+        it.session.contracts[WE._make_wfs_table] = table_summary
+        env.vars.update(dict(sr=sr, chunksize_samples=SV(chunk), trough_offset=SV(trough), spike_length_samples=SV(L)))
         it.ctx.func = env.qualname
         want = {"s0_arr", "s1_arr", "num_chunks"}
 
@@ -521,12 +532,22 @@ def h_chunks(H):
                 done |= tg
             elif tg == {"slices"} and isinstance(st.value, ast.ListComp):
                 slices_node = st.value
+            elif isinstance(st, ast.Assign) and isinstance(st.value, ast.Call) and ast.unparse(st.value.func) == "_make_wfs_table":
+                it.exec_stmt(st, env)
             else:
                 for sub in ast.walk(st):
                     if isinstance(sub, ast.GeneratorExp) and "write_wfs_chunk" in ast.unparse(sub.elt):
                         par_node = sub
         if done != want or slices_node is None or par_node is None or len(slices_node.generators) != 1 or len(par_node.generators) != 1:
             raise I.Unsupported("cannot identify the chunk arrays / the per-chunk slices / the per-chunk jobs in extract_wfs_cbin()")
+        if len(requested) != 1 or env.vars.get("wf_flat") is not table:
+            raise I.Unsupported("cannot identify the single request wf_flat, ... = _make_wfs_table(...) in extract_wfs_cbin()")
+        rq = requested[0]
+        same = lambda v, sym: isinstance(v, (SV, z3.ExprRef, int)) and z3.is_true(z3.simplify(term(v) == sym))      # noqa
+        it.ctx.oblige("chunks.table_request", z3.BoolVal(bool(rq.get("sr") is sr and rq.get("spike_samples") == tokens["spike_samples"] and rq.get("spike_clusters") == tokens["spike_clusters"]
+                                                              and rq.get("spike_channels") == tokens["spike_channels"] and rq.get("max_wf") == tokens["max_wf"] and rq.get("seed") == tokens["seed"]
+                                                              and same(rq.get("trough_offset"), trough) and same(rq.get("spike_length_samples"), L))), "post",
+                      "the table of waveforms is requested for the caller's recording, spikes, count per unit, seed and - as the chunk jobs cut their windows with them - the caller's window offset and length")
         s0, s1 = env.vars["s0_arr"], env.vars["s1_arr"]
         nchunk = term(env.vars["num_chunks"])
         i = z3.Int("i_chunk")
@@ -1079,7 +1100,8 @@ def _rec(d, ns, rng):
     return ap, x
 
 
-def native_e2e(rng, ns, chunk, jobs, sizes, max_wf, seed, tail_spikes=False):
+def native_e2e(rng, ns, chunk, jobs, sizes, max_wf, seed, tail_spikes=False, trough=42, length=128, quiet_until=0):
+    """quiet_until > 0: no spike before that sample (leading chunks without any waveform); a spike a few samples after it and one exactly on it"""
     bad = []
     d = tempfile.mkdtemp(prefix="c13_")
     try:
@@ -1090,10 +1112,10 @@ def native_e2e(rng, ns, chunk, jobs, sizes, max_wf, seed, tail_spikes=False):
         sr.close()
         samples, clusters, channels = [], [], []
         for u, k in enumerate(sizes):
-            s = rng.integers(0, ns, k)
+            s = rng.integers(quiet_until, ns, k)
             if tail_spikes:
-                s[:4] = [ns - 100, ns - 95, ns - 87, ns - 87]
-            s[:2] = [43, 1]
+                s[:4] = [ns - 100, ns - 95, ns - (length - trough) - 1, ns - (length - trough) - 1]
+            s[:2] = [trough + 1, 1] if not quiet_until else [quiet_until + 10, quiet_until]
             samples.append(s)
             clusters.append(np.full(k, 10 + 3 * u))
             channels.append(rng.integers(0, 384, k))
@@ -1105,7 +1127,8 @@ def native_e2e(rng, ns, chunk, jobs, sizes, max_wf, seed, tail_spikes=False):
         import joblib
         import pathlib
         with joblib.parallel_backend("threading"):
-            WE.extract_wfs_cbin(ap, pathlib.Path(out), samples, clusters, channels, max_wf=max_wf, chunksize_samples=chunk, n_jobs=jobs, preprocess_steps=[], seed=seed)
+            kw_win = {} if (trough, length) == (42, 128) else {"trough_offset": trough, "spike_length_samples": length}
+            WE.extract_wfs_cbin(ap, pathlib.Path(out), samples, clusters, channels, max_wf=max_wf, chunksize_samples=chunk, n_jobs=jobs, preprocess_steps=[], seed=seed, **kw_win)
         wl = WE.WaveformsLoader(out)
         tab = wl.df_wav
         traces = np.load(os.path.join(out, "waveforms.traces.npy"))
@@ -1113,7 +1136,7 @@ def native_e2e(rng, ns, chunk, jobs, sizes, max_wf, seed, tail_spikes=False):
         templ = np.load(os.path.join(out, "waveforms.templates.npy"))
         geom = np.c_[h["x"], h["y"]]
         cn = U.make_channel_index(geom)
-        valid = (samples > 42) & (samples < ns - 86)
+        valid = (samples > trough) & (samples < ns - (length - trough))
         for u, k in enumerate(sizes):
             cl = 10 + 3 * u
             rows = tab[tab["cluster"] == cl]
@@ -1127,9 +1150,12 @@ def native_e2e(rng, ns, chunk, jobs, sizes, max_wf, seed, tail_spikes=False):
             if not np.array_equal(chans[wi], cn[pc]):
                 bad.append(("channels row", r))
                 break
-            want = np.full((cn.shape[1], 128), np.nan, np.float32)
+            want = np.full((cn.shape[1], length), np.nan, np.float32)
             ok_ch = cn[pc] < 384
-            want[ok_ch] = V[s - 42: s + 86, cn[pc][ok_ch]].T
+            if s - trough < 0 or s - trough + length > ns:
+                bad.append(("a spike whose window does not fit in the recording was selected", r, s))
+                break
+            want[ok_ch] = V[s - trough: s - trough + length, cn[pc][ok_ch]].T
             if not np.array_equal(traces[wi], want, equal_nan=True):
                 bad.append(("traces row differs from source", r, s, pc))
                 break
@@ -1170,7 +1196,8 @@ def native_e2e(rng, ns, chunk, jobs, sizes, max_wf, seed, tail_spikes=False):
 
 
 @bounded(PROPERTY, "native_extraction", bound="extract_wfs_array on random traces/geometries (200 cases); end-to-end extract_wfs_cbin -> files -> WaveformsLoader on a 385-channel random recording: ns in {6100, 9000} "
-         "x chunk sizes {500, 1000, 3000, ns} x workers {1, 3} x unit sizes below/at/above max_wf, spikes at file edges and in the last 86..128 samples (quick: 4 runs, thorough: 24)",
+         "x chunk sizes {500, 1000, 3000, ns} x workers {1, 3} x unit sizes below/at/above max_wf, spikes at file edges and in the last 86..128 samples (quick: 4 runs, thorough: 24); "
+         "windows 60/128 and 20/90 with spikes in both margins; recordings whose first one or two chunks hold no spike, first spike on / just after a chunk start",
          clause="selection counts, table/traces/channels/templates row by row, per-unit running index, chunk-size and worker independence, loader by label and by index")
 def b_native(B):
     rng = np.random.default_rng(B.seed)
@@ -1195,6 +1222,11 @@ def b_native(B):
         else:
             ref[ns] = res
         B.case(("e2e", ns, chunk, jobs), not other, detail=other[:4], inputs={"kind": "e2e", "ns": ns, "chunk": chunk, "jobs": jobs})
+    # a window other than the default 42 / 128 (spikes in the margins at both ends), and leading chunks without any selected spike
+    for ns, chunk, jobs, kw in ((6100, 3000, 1, dict(trough=60, length=128)), (6100, 1000, 3, dict(trough=20, length=90)), (9000, 3000, 1, dict(quiet_until=3000)), (9000, 1000, 3, dict(quiet_until=6000)))[:None if B.tier == "thorough" else 3]:
+        bad, res = native_e2e(np.random.default_rng(B.seed + 11), ns, chunk, jobs, sizes=[5, 16, 40], max_wf=16, seed=7, tail_spikes=True, **kw)
+        other = [x for x in bad if not (x[0] == "count" and x[-1] == "first_valid_index_selected")]
+        B.case(("e2e_window_or_quiet_start", ns, chunk, jobs, tuple(sorted(kw.items()))), not other, detail=other[:4], inputs={"kind": "e2e_window", "ns": ns, "chunk": chunk, **kw})
     # every unit at or above max_wf (no zero padding in the index table)
     for ns, chunk, jobs in runs[:2]:
         bad, res = native_e2e(np.random.default_rng(B.seed + 5), ns, chunk, jobs, sizes=[24, 19, 40], max_wf=16, seed=3)
